@@ -17,6 +17,7 @@ class Interp(StmtMixin, ExtMixin, OpsMixin, InterpCore):
     def __init__(self, program, **kw):
         InterpCore.__init__(self, program, **kw)
         self.loop_stack = []
+        self.proxy_store = {}
         self.sticky = 0
         self.at_function_tail = True
         self.loop_body_tail = False
@@ -260,6 +261,16 @@ class Interp(StmtMixin, ExtMixin, OpsMixin, InterpCore):
     def getattr(self, base, attr, node=None):
         from .symeval_ext import SuperV
         from .model import ClassInfo
+        if self.is_proxy(base) and attr not in base.attrs:
+            found_in_class = any(isinstance(c, ClassInfo) and (attr in c.methods or attr in c.class_attrs) for c in base.ci.mro())
+            if not found_in_class:
+                w = base.attrs.get("__wrapped__")
+                if w is None:
+                    self.err(node, "proxy used before initialisation")
+                k = (w.key(), attr)
+                if k in self.proxy_store:
+                    return self.proxy_store[k]
+                return self.getattr(w, attr, node)
         if isinstance(base, SuperV):
             inst = base.inst
             start_cls = inst.ci if isinstance(inst, InstV) else inst.ci
@@ -279,6 +290,28 @@ class Interp(StmtMixin, ExtMixin, OpsMixin, InterpCore):
 
     def x_object___init__(self, args, kwargs, node, env):
         return NONE
+
+    # wrapt.ObjectProxy: attribute stores go to the wrapped object unless the name starts with _self_
+    def x_wrapt_ObjectProxy___init__(self, args, kwargs, node, env):
+        args[0].attrs["__wrapped__"] = args[1]
+        return NONE
+
+    def is_proxy(self, v):
+        from .model import ExternalClass
+        return isinstance(v, InstV) and any(isinstance(c, ExternalClass) and c.name.endswith("ObjectProxy") for c in v.ci.mro())
+
+    def setattr(self, base, attr, val, node=None):
+        if self.is_proxy(base) and not attr.startswith("_self_") and attr != "__wrapped__":
+            w = base.attrs.get("__wrapped__")
+            if w is None:
+                self.err(node, "proxy attribute store before the proxy is initialised")
+            self.log_event(("proxy-store", attr))
+            if isinstance(w, InstV):
+                w.attrs[attr] = val
+            else:
+                self.proxy_store[(w.key(), attr)] = val
+            return
+        OpsMixin.setattr(self, base, attr, val, node)
 
     # convenience --------------------------------------------------------------
     def run(self, fi, args, kwargs=None, selfv=None):
